@@ -271,7 +271,26 @@ def sk9(iso, L, cfg, hook=_nohook, fp=None, k=50):
     return {'files': files, 'dirs': ['/BIG', '/BIG/ZSUB', '/BIG/ZSUB/DEEP', '/BIG/ZLATE'], 'steps': n}
 
 
-SKELETONS = {'sk1': sk1, 'sk2': sk2, 'sk3': sk3, 'sk4': sk4, 'sk5': sk5, 'sk6': sk6, 'sk7': sk7, 'sk8': sk8, 'sk9': sk9}
+def sk10(iso, L, cfg, hook=_nohook, fp=None):
+    """nested directories: /DIR1/DIR2/DIR3 with a file at each level, a UDF symlink with a UCS-2 component at depth two, then the removal of
+    the deepest file and directory (parent entries must name the right File Entry / directory record at every level)   (3 lengths)"""
+    fp = fp or h.InFP()
+    iso.add_directory(**dkw(cfg, 'DIR1')); hook(0)
+    iso.add_directory(**dkw(cfg, 'DIR2', '/DIR1')); hook(1)
+    iso.add_fp(fp, L[0], **fkw(cfg, 'AAA', '/DIR1/DIR2')); hook(2)
+    iso.add_directory(**dkw(cfg, 'DIR3', '/DIR1/DIR2')); hook(3)
+    iso.add_fp(fp, L[1], **fkw(cfg, 'BBB', '/DIR1/DIR2/DIR3')); hook(4)
+    iso.add_fp(fp, L[2], **fkw(cfg, 'CCC', '/DIR1')); hook(5)
+    n = 6
+    if cfg['udf']:
+        iso.add_symlink(udf_symlink_path='/dir1/dir2/sym', udf_target='../\u0434\u0430/ccc'); hook(n); n += 1
+    iso.rm_file(iso_path='/DIR1/DIR2/DIR3/BBB.;1'); hook(n); n += 1
+    iso.rm_directory(**dkw(cfg, 'DIR3', '/DIR1/DIR2')); hook(n); n += 1
+    return {'files': {'/DIR1/DIR2/AAA.;1': L[0], '/DIR1/CCC.;1': L[2]}, 'dirs': ['/DIR1', '/DIR1/DIR2'], 'steps': n,
+            'udf_symlinks': {'/dir1/dir2/sym': '../\u0434\u0430/ccc'} if cfg['udf'] else {}}
+
+
+SKELETONS = {'sk1': sk1, 'sk2': sk2, 'sk3': sk3, 'sk4': sk4, 'sk5': sk5, 'sk6': sk6, 'sk7': sk7, 'sk8': sk8, 'sk9': sk9, 'sk10': sk10}
 
 
 # ---- object collection (what occupies which sectors) ----------------------------------------------
